@@ -92,6 +92,10 @@ class Ctx:
         self._modfile = None
         kf = os.path.join(VERIF, "known_findings.json")
         self.findings = json.load(open(kf)) if os.path.exists(kf) else {"findings": [], "fixed": []}
+        for extra in sorted(glob.glob(os.path.join(VERIF, "findings.d", "*.json"))):
+            x = json.load(open(extra))
+            self.findings.setdefault("findings", []).extend(x.get("findings", []))
+            self.findings.setdefault("fixed", []).extend(x.get("fixed", []))
         self._repo_status0 = self._repo_status()
 
     # ---------------- bookkeeping
@@ -172,8 +176,9 @@ class Ctx:
         }
         if self.notes:
             ev["coverage"]["notes"] = self.notes
-        os.makedirs(os.path.join(VERIF, "evidence"), exist_ok=True)
-        with open(os.path.join(VERIF, "evidence", "%s.json" % self.prop), "w") as fh:
+        evdir = "evidence" if os.path.realpath(REPO) == "/repo" else "evidence-alt"   # experiments on worktrees never touch the evidence
+        os.makedirs(os.path.join(VERIF, evdir), exist_ok=True)
+        with open(os.path.join(VERIF, evdir, "%s.json" % self.prop), "w") as fh:
             json.dump(ev, fh, indent=1, sort_keys=True, default=str)
         for fid, what in sorted(self.known_hits.items()):
             print("KNOWN-FINDING: property=%s %s: %s" % (self.prop, fid, what))
@@ -200,7 +205,7 @@ class Ctx:
         e["JAVA_TOOL_OPTIONS"] = (e.get("VERIF_JAVA_OPTS", "") + " -Xss512m").strip()
         if env:
             e.update(env)
-        heap = os.environ.get("VERIF_TLC_HEAP", "12g")
+        heap = os.environ.get("VERIF_TLC_HEAP", "8g")
         cmd = ["java", "-XX:+UseParallelGC", "-Xmx" + heap]
         if env and env.get("_DEQUE"):
             cmd.append("-Dtlc2.tool.queue.IStateQueue=StateDeque")
@@ -330,14 +335,20 @@ class Ctx:
         r.out, r.wall = out, wall
         if rc is None:
             self.inconclusive("TLC trace validation timed out on %s" % module)
-        m = re.search(r"VERIF_HWM\W+(\d+)\W+(\d+)", out)
-        if m:
-            r.hwm, r.total = int(m.group(1)), int(m.group(2))
-        else:
-            self.inconclusive("trace spec %s did not report a high-water mark:\n%s" % (module, _tail(out)))
         vm = re.search(r"Invariant (\S+) is violated", out) or re.search(r"Action property (\S+) is violated", out)
         if vm:
             r.inv = vm.group(1)
+        m = re.search(r"VERIF_HWM\W+(\d+)\W+(\d+)", out)
+        if m:
+            r.hwm, r.total = int(m.group(1)), int(m.group(2))
+        elif r.inv:
+            # TLC stops at the invariant violation without evaluating the postcondition; the
+            # violating state is the last one of the printed counterexample: take its `l`
+            ls = re.findall(r"^/\\ l = (\d+)", out, re.M)
+            r.hwm = max(0, int(ls[-1]) - 2) if ls else 0
+            r.total = sum(1 for _ in open(trace_path))
+        else:
+            self.inconclusive("trace spec %s did not report a high-water mark:\n%s" % (module, _tail(out)))
         sm = re.findall(r"(\d+) states generated, (\d+) distinct states found", out)
         if sm:
             r.states = int(sm[-1][1])
@@ -523,9 +534,22 @@ def main(argv):
     if not a.prop:
         ap.error("property id required")
     mod = importlib.import_module("props." + a.prop.lower())
-    ctx = Ctx(a.prop.upper(), a.tier, seed, a.replay)
+    want = None
+    tier = a.tier
+    if a.replay:
+        # a replay file records the seed and tier of the run that found the violation and the
+        # violation's signature; replaying = re-running that deterministic run and looking for it
+        rp = json.load(open(a.replay))
+        seed, tier, want = int(rp.get("seed", seed)), rp.get("tier", tier), sha(rp.get("sig"))
+    ctx = Ctx(a.prop.upper(), tier, seed, a.replay)
     try:
         mod.run(ctx)
+        if want is not None:
+            hit = [v for v in ctx.violations if v["key"] == want]
+            ctx.violations = hit
+            rc = ctx.finish()
+            print("REPLAY property=%s %s" % (ctx.prop, "reproduced" if hit else "not reproduced"))
+            return rc
         return ctx.finish()
     except Inconclusive as ex:
         print("INCONCLUSIVE property=%s: %s" % (ctx.prop, ex))
